@@ -107,7 +107,7 @@ impl<'w> Gen for Gen10<'w> {
         let weights = [40, if plain { 12 } else { 0 }, if cands.is_empty() || !plain { 0 } else { 25 }, 18, 5, 1];
         Some(match rng.weighted(&weights) {
             0 => Op::Next { it },
-            1 => Op::PeekN { it, n: rng.range(1, 4) },
+            1 => Op::PeekN { it, n: gen_peek_n(rng) },
             2 => Op::AdvanceToPeeked { it, k: *rng.pick(&cands) },
             3 => {
                 let len = self.m.input_of(it).len();
